@@ -5,6 +5,7 @@ use crate::mv::*;
 use crate::observe::guarded;
 use crate::rng::Rng;
 use crate::runner::*;
+use nodejs_semver::Version;
 use serde_json::json;
 use std::cmp::Ordering;
 
@@ -163,6 +164,75 @@ pub fn run(ctx: &mut Ctx) {
             for b in &pool {
                 if ctx.take() {
                     judge(ctx, a, b);
+                }
+            }
+        }
+    }
+    // versions obtained from text (both entry points), spelled in ways that denote the same
+    // identifiers differently: zero-padded numeric tags, `v` prefix, build metadata. The model
+    // works on the denoted identifiers; the crate sees only the text.
+    ctx.stratum("P-parsed-pairs-and-spellings", false);
+    let np = ctx.tier.n(20_000, 2_000_000);
+    for i in 0..np {
+        if !ctx.take() {
+            continue;
+        }
+        let mut r = Rng::for_case(ctx.seed, "C16-P", i);
+        let den = |r: &mut Rng| -> MV {
+            let mut v = MV::new(*r.pick(&[0u64, 1, 2]), *r.pick(&[0u64, 1, 2]), *r.pick(&[0u64, 1, 2]));
+            if r.chance(2, 3) {
+                for _ in 0..1 + r.below(3) {
+                    v.pre.push(r.pick(&["0", "1", "7", "10", "rc", "a", "-1", "0a", "x"]).to_string());
+                }
+            }
+            v
+        };
+        let spell = |r: &mut Rng, v: &MV| -> String {
+            let ids: Vec<String> = v.pre.iter().map(|i| if all_digits(i) && r.chance(1, 2) { format!("{}{}", "0".repeat(1 + r.below(2)), i) } else { i.clone() }).collect();
+            let mut t = format!("{}.{}.{}", v.major, v.minor, v.patch);
+            if !ids.is_empty() {
+                t.push('-');
+                t.push_str(&ids.join("."));
+            }
+            if r.chance(1, 4) {
+                t.push_str("+b.01");
+            }
+            if r.chance(1, 5) {
+                t = format!("v{}", t);
+            }
+            t
+        };
+        let a = den(&mut r);
+        let b = match r.below(3) {
+            0 => a.clone(), // the same version, possibly spelled differently
+            1 => {
+                let mut b = a.clone();
+                b.pre = den(&mut r).pre;
+                b
+            }
+            _ => den(&mut r),
+        };
+        let (ta, tb) = (spell(&mut r, &a), spell(&mut r, &b));
+        let (pa, pb) = match (guarded(|| Version::parse(&ta)), guarded(|| tb.parse::<Version>())) {
+            (Ok(Ok(x)), Ok(Ok(y))) => (x, y),
+            _ => continue, // acceptance is C05's subject
+        };
+        ctx.begin(|| format!("C16 parsed diff {:?} {:?}", ta, tb));
+        let want = model_diff(&a, &b);
+        ctx.eval(1);
+        ctx.class(&format!("parsed:{}", class_of(&a, &b)));
+        if want.is_some() || ta != tb {
+            ctx.nontrivial(&format!("{} {}", ta, tb));
+        }
+        match guarded(|| (pa.diff(&pb), pb.diff(&pa))) {
+            Err(p) => ctx.violation(&format!("panic/{}", p.site), json!({"a": ta, "b": tb}), p.message),
+            Ok((g1, g2)) => {
+                let gs = g1.map(|d| d.to_string());
+                if g1 != g2 {
+                    ctx.violation(&format!("asymmetric/parsed/{}", class_of(&a, &b)), json!({"a": ta, "b": tb}), format!("a.diff(b)={:?} but b.diff(a)={:?}", g1, g2));
+                } else if gs.as_deref() != want {
+                    let clause = if want.is_none() { "some-on-equal" } else if gs.is_none() { "none-on-different" } else { "wrong-type" };
+                    ctx.violation(&format!("{}/parsed/{}", clause, class_of(&a, &b)), json!({"a": ta, "b": tb}), format!("Version::parse({:?}).diff(parse({:?})) = {:?}, node-semver 7.6.2 reports {:?} for the versions these texts denote", ta, tb, gs, want));
                 }
             }
         }
